@@ -726,7 +726,7 @@ impl<'a> Searcher<'a> {
                                     if search_archives
                                         && self.is_zip_archive(&path.to_string_lossy())
                                     {
-                                        if let Ok(file) = fs::File::open(&path) {
+                                        if let Ok(file) = crate::util::open_for_reading(&path) {
                                             if let Ok(mut archive) = zip::ZipArchive::new(file) {
                                                 for i in 0..archive.len() {
                                                     if !self.is_buffered()
@@ -1587,7 +1587,7 @@ impl<'a> Searcher<'a> {
             Field::HasXattrs => {
                 #[cfg(unix)]
                 {
-                    if let Ok(file) = fs::File::open(entry.path()) {
+                    if let Ok(file) = crate::util::open_for_reading(&entry.path()) {
                         if let Ok(xattrs) = file.list_xattr() {
                             let has_xattrs = xattrs.count() > 0;
                             return Variant::from_bool(has_xattrs);
@@ -1603,7 +1603,7 @@ impl<'a> Searcher<'a> {
             Field::Capabilities => {
                 #[cfg(target_os = "linux")]
                 {
-                    if let Ok(file) = fs::File::open(entry.path()) {
+                    if let Ok(file) = crate::util::open_for_reading(&entry.path()) {
                         if let Ok(Some(caps_xattr)) = file.get_xattr("security.capability") {
                             let caps_string =
                                 crate::util::capabilities::parse_capabilities(caps_xattr);
@@ -1798,7 +1798,7 @@ impl<'a> Searcher<'a> {
                 }
             }
             Field::Mime => {
-                if let Some(mime) = tree_magic_mini::from_filepath(&entry.path()) {
+                if let Some(mime) = crate::util::get_mime(&entry.path()) {
                     return Variant::from_string(&String::from(mime));
                 }
 
@@ -1814,7 +1814,7 @@ impl<'a> Searcher<'a> {
                     }
                 }
 
-                if let Some(mime) = tree_magic_mini::from_filepath(&entry.path()) {
+                if let Some(mime) = crate::util::get_mime(&entry.path()) {
                     let is_binary = !is_text_mime(mime);
                     return Variant::from_bool(is_binary);
                 }
@@ -1831,7 +1831,7 @@ impl<'a> Searcher<'a> {
                     }
                 }
 
-                if let Some(mime) = tree_magic_mini::from_filepath(&entry.path()) {
+                if let Some(mime) = crate::util::get_mime(&entry.path()) {
                     let is_text = is_text_mime(mime);
                     return Variant::from_bool(is_text);
                 }
